@@ -57,8 +57,127 @@ func pathCond(c *schema.Ctx, body []ast.Stmt, target ast.Node) (string, bool) {
 		}
 		return "(" + a + " || " + b + ")"
 	}
+	// caseConds: for every clause of a (tagged or tagless) expression switch, the condition under
+	// which it is selected (its own tests and the negation of all earlier ones; default: the
+	// negation of all tests)
+	caseConds := func(s *ast.SwitchStmt) map[*ast.CaseClause]string {
+		out := map[*ast.CaseClause]string{}
+		tag := ""
+		if s.Tag != nil {
+			tag = c.ExprStr(s.Tag)
+			if strings.ContainsAny(tag, " ") {
+				tag = "(" + tag + ")"
+			}
+		}
+		var all []string
+		var def *ast.CaseClause
+		for _, cl := range s.Body.List {
+			cc := cl.(*ast.CaseClause)
+			if cc.List == nil {
+				def = cc
+				continue
+			}
+			var cs []string
+			for _, x := range cc.List {
+				t := c.ExprStr(x)
+				if tag != "" {
+					t = tag + " == " + t
+				} else if strings.ContainsAny(t, "&|") {
+					t = "(" + t + ")"
+				}
+				cs = append(cs, t)
+			}
+			own := strings.Join(cs, " || ")
+			if len(cs) > 1 {
+				own = "(" + own + ")"
+			}
+			parts := append(append([]string{}, all...), own)
+			out[cc] = strings.Join(parts, " && ")
+			all = append(all, schema.NegGuard(own))
+		}
+		if def != nil {
+			out[def] = strings.Join(all, " && ")
+			if len(all) == 0 {
+				out[def] = "true"
+			}
+		}
+		return out
+	}
 	fallStmt := func(st ast.Stmt) string {
 		switch s := st.(type) {
+		case *ast.SwitchStmt:
+			if s.Init != nil {
+				return "true"
+			}
+			conds := caseConds(s)
+			out := "false"
+			hasDefault := false
+			var negs []string
+			for _, cl := range s.Body.List {
+				cc := cl.(*ast.CaseClause)
+				if cc.List == nil {
+					hasDefault = true
+				}
+				for _, b := range cc.Body {
+					if br, ok := b.(*ast.BranchStmt); ok && br.Tok == token.FALLTHROUGH {
+						return "true"
+					}
+				}
+				// a break inside the clause leaves the switch, not the function
+				f := fall(cc.Body)
+				hasBreak := false
+				ast.Inspect(cc, func(n ast.Node) bool {
+					switch b := n.(type) {
+					case *ast.BranchStmt:
+						if b.Tok == token.BREAK {
+							hasBreak = true
+						}
+					case *ast.ForStmt, *ast.RangeStmt, *ast.FuncLit, *ast.SelectStmt:
+						return false
+					}
+					return true
+				})
+				if hasBreak {
+					f = "true"
+				}
+				out = or(out, and(conds[cc], f))
+			}
+			if !hasDefault {
+				for _, cl := range s.Body.List {
+					cc := cl.(*ast.CaseClause)
+					_ = cc
+				}
+				// no clause selected
+				last := ""
+				for _, cl := range s.Body.List {
+					cc := cl.(*ast.CaseClause)
+					var cs []string
+					for _, x := range cc.List {
+						t := c.ExprStr(x)
+						if s.Tag != nil {
+							tg := c.ExprStr(s.Tag)
+							if strings.ContainsAny(tg, " ") {
+								tg = "(" + tg + ")"
+							}
+							t = tg + " == " + t
+						} else if strings.ContainsAny(t, "&|") {
+							t = "(" + t + ")"
+						}
+						cs = append(cs, t)
+					}
+					own := strings.Join(cs, " || ")
+					if len(cs) > 1 {
+						own = "(" + own + ")"
+					}
+					negs = append(negs, schema.NegGuard(own))
+				}
+				last = strings.Join(negs, " && ")
+				if last == "" {
+					last = "true"
+				}
+				out = or(out, last)
+			}
+			return out
 		case *ast.IfStmt:
 			cnd := c.ExprStr(s.Cond)
 			fb := fall(s.Body.List)
@@ -123,24 +242,14 @@ func pathCond(c *schema.Ctx, body []ast.Stmt, target ast.Node) (string, bool) {
 			case *ast.RangeStmt:
 				return find(s.Body.List)
 			case *ast.SwitchStmt:
-				var prev []string
+				cds := caseConds(s)
 				for _, cl := range s.Body.List {
 					cc := cl.(*ast.CaseClause)
-					var cs []string
-					for _, x := range cc.List {
-						cs = append(cs, c.ExprStr(x))
-					}
 					if contains(cc) {
-						if s.Tag == nil {
-							conds = append(conds, prev...)
-							if len(cs) > 0 {
-								conds = append(conds, "("+strings.Join(cs, " || ")+")")
-							}
+						if cd := cds[cc]; cd != "" && cd != "true" {
+							conds = append(conds, cd)
 						}
 						return find(cc.Body)
-					}
-					if s.Tag == nil && len(cs) > 0 {
-						prev = append(prev, schema.NegGuard("("+strings.Join(cs, " || ")+")"))
 					}
 				}
 				return true
